@@ -38,7 +38,7 @@ pub const LAYOUTS: &[(&str, &str)] = &[
     ("190", "20 21 25 32[CD] 52[AD]? 71B 72?"),
     ("191", "20 21 32B 52[AD]? 57[ABCD]? 71B 72?"),
     ("192", "20 21 11S 79?"),
-    ("196", "20 21 76 77A? 79?"),
+    ("196", "20 21 76 77A? 11? 79?"),
     ("199", "20 21? 79"),
     ("200", "20 32A 53B? 56[AD]? 57[ABD] 72?"),
     (
@@ -51,7 +51,7 @@ pub const LAYOUTS: &[(&str, &str)] = &[
     ),
     (
         "205",
-        "20 21 13C* 32A 52[AD]? 53[ABD]? 56[ACD]? 57[ABCD]? 58[AD] 72?",
+        "20 21 13C* 23B? 32A 33B? 52[AD]? 53[ABD]? 54[ABD]? 56[ACD]? 57[ABCD]? 58[AD] 72?",
     ),
     (
         "210",
